@@ -491,7 +491,8 @@ class Gen:
 
 MUTATIONS = ["undeclared_reg", "undeclared_gate", "index_range", "repeated_qubit", "arity_param", "arity_qubit",
              "reset", "opaque", "power", "function", "broadcast_mismatch", "free_id", "if_undeclared_creg",
-             "measure_range", "measure_sizes", "body_undeclared_gate", "no_header", "body_arity", "zero_div"]
+             "measure_range", "measure_sizes", "body_undeclared_gate", "no_header", "body_arity", "zero_div",
+             "if_value_range"]
 
 
 def mutate(rng, prog, kind):
@@ -625,6 +626,11 @@ def mutate(rng, prog, kind):
             return None
     elif kind == "if_undeclared_creg":
         prog[i] = {"t": "if", "c": "nosuchcreg", "k": 0, "op": op}
+    elif kind == "if_value_range":      # a value that does not fit the register (never true for the standard)
+        if not cregs:
+            return None
+        c = rng.choice(cregs)
+        prog[i] = {"t": "if", "c": c[0], "k": 2 ** c[1] + rng.randint(0, 3), "op": op}
     else:
         raise ValueError(kind)
     return prog
@@ -929,7 +935,7 @@ class C04(PropertyCheck):
             p = g.program()
             yield p
             if rng.random() < 0.5:
-                m = mutate(rng, p, rng.choice(MUTATIONS))
+                m = mutate(rng, p, rng.choice([k for k in MUTATIONS if k != "if_value_range"]))
                 if m is not None:
                     yield m
 
